@@ -426,3 +426,126 @@ Theorem C01_histz_example_spec :
 Proof. exact (conj exz_spec_restrict exz_spec_change). Qed.
 Print Assumptions C01_histz_example_spec.
 
+
+(** ** ALL histories, MTBDD kind (HISTz part M, Mgr/HistoryM.v): canonicity after any history in terms of the
+    value table over the variables ([mfun_of]); the result of every call is determined by the operator, the
+    operands' functions and the variable order *)
+From Coq Require Import Bool List NArith ZArith PArith FMapPositive.
+From OxiVerif Require Import DD.Sem DD.Build DD.Apply DD.ApplyProofs DD.ConfigApply Num.I64 DD.ApplyMtbdd DD.ApplyMtbddBase
+  DD.ApplyMtbddProofs DD.ApplyMtbddTop Mgr.HistoryExamples
+  Mgr.HistoryM Mgr.HistoryMBase Mgr.HistoryMProofs Mgr.HistoryMThms Mgr.HistoryMSpec Mgr.HistoryMTie Mgr.HistoryMExamples.
+
+(* the property: after ANY history two slots hold the same edge iff they denote the same function (value table) of the variables *)
+Theorem C01_histm_canonical :
+  forall (gt : ref -> ref -> bool) (C : Type) (cget : C -> N -> list ref -> option ref)
+  (cadd : C -> N -> list ref -> ref -> C),
+  lossy cget cadd ->
+  forall cempty : C,
+  (forall (k : N) (a : list ref), cget cempty k a = None) ->
+  forall (n : nat) (st : hstate_m C),
+  hreach_m gt C cget cadd cempty n st ->
+  forall (x y : N) (ex ey : edge),
+  hget (s_handles (hm_s C st)) x = Some ex ->
+  hget (s_handles (hm_s C st)) y = Some ey ->
+  ex = ey <-> (forall a : asg, mfun_of (hm_s C st) (eref ex) a = mfun_of (hm_s C st) (eref ey) a).
+Proof. exact histm_canonical. Qed.
+Print Assumptions C01_histm_canonical.
+
+Theorem C01_histm_inv_canonical :
+  forall (C : Type) (cget : C -> N -> list ref -> option ref) (st : hstate_m C),
+  HInvM C cget st ->
+  forall (x y : N) (ex ey : edge),
+  hget (s_handles (hm_s C st)) x = Some ex ->
+  hget (s_handles (hm_s C st)) y = Some ey ->
+  ex = ey <-> (forall a : asg, mfun_of (hm_s C st) (eref ex) a = mfun_of (hm_s C st) (eref ey) a).
+Proof. exact hinvm_canonical. Qed.
+Print Assumptions C01_histm_inv_canonical.
+
+(* after any history the destination holds the pointwise spec function of the operand FUNCTIONS *)
+Theorem C01_histm_spec :
+  forall (gt : ref -> ref -> bool) (C : Type) (cget : C -> N -> list ref -> option ref)
+  (cadd : C -> N -> list ref -> ref -> C),
+  lossy cget cadd ->
+  forall cempty : C,
+  (forall (k : N) (a : list ref), cget cempty k a = None) ->
+  forall (st : hstate_m C) (o : mhop) (d : N) (F : asg -> i64v),
+  HInvM C cget st ->
+  hspec_m C st o d F ->
+  exists st' : hstate_m C,
+  hstep_m gt C cget cadd cempty st o = Some st' /\ HInvM C cget st' /\ hframe_m C st o st' /\ mholds C st' d F.
+Proof. exact hstep_m_spec. Qed.
+Print Assumptions C01_histm_spec.
+
+Theorem C01_histm_result_unique :
+  forall (gt : ref -> ref -> bool) (C : Type) (cget : C -> N -> list ref -> option ref)
+  (cadd : C -> N -> list ref -> ref -> C),
+  lossy cget cadd ->
+  forall cempty : C,
+  (forall (k : N) (a : list ref), cget cempty k a = None) ->
+  forall (st : hstate_m C) (o : mhop) (d : N) (F : asg -> i64v) (st' : hstate_m C),
+  HInvM C cget st ->
+  hspec_m C st o d F ->
+  hstep_m gt C cget cadd cempty st o = Some st' ->
+  forall y : N, mholds C st' y F -> hget (s_handles (hm_s C st')) y = hget (s_handles (hm_s C st')) d.
+Proof. exact histm_result_unique. Qed.
+Print Assumptions C01_histm_result_unique.
+
+(* two managers, two configurations, arbitrary histories, the same variable order: same function, same node count *)
+Theorem C01_histm_result_determined :
+  forall (gt1 gt2 : ref -> ref -> bool) (C1 C2 : Type) (cget1 : C1 -> N -> list ref -> option ref)
+  (cadd1 : C1 -> N -> list ref -> ref -> C1) (cget2 : C2 -> N -> list ref -> option ref)
+  (cadd2 : C2 -> N -> list ref -> ref -> C2),
+  lossy cget1 cadd1 ->
+  lossy cget2 cadd2 ->
+  forall (ce1 : C1) (ce2 : C2),
+  (forall (k : N) (a : list ref), cget1 ce1 k a = None) ->
+  (forall (k : N) (a : list ref), cget2 ce2 k a = None) ->
+  forall (st1 : hstate_m C1) (st2 : hstate_m C2) (o1 o2 : mhop) (d1 d2 : N) (F : asg -> i64v) (st1' : hstate_m C1)
+  (st2' : hstate_m C2),
+  HInvM C1 cget1 st1 ->
+  HInvM C2 cget2 st2 ->
+  s_l2v (hm_s C1 st1) = s_l2v (hm_s C2 st2) ->
+  s_v2l (hm_s C1 st1) = s_v2l (hm_s C2 st2) ->
+  hspec_m C1 st1 o1 d1 F ->
+  hspec_m C2 st2 o2 d2 F ->
+  hstep_m gt1 C1 cget1 cadd1 ce1 st1 o1 = Some st1' ->
+  hstep_m gt2 C2 cget2 cadd2 ce2 st2 o2 = Some st2' ->
+  exists r1 r2 : ref,
+  mslot C1 st1' d1 = Some r1 /\
+  mslot C2 st2' d2 = Some r2 /\
+  (forall a : asg, mfun_of (hm_s C1 st1') r1 a = F a) /\
+  (forall a : asg, mfun_of (hm_s C2 st2') r2 a = F a) /\
+  count_reach (hm_s C1 st1') (E r1) = count_reach (hm_s C2 st2') (E r2).
+Proof. exact histm_result_determined. Qed.
+Print Assumptions C01_histm_result_determined.
+
+(* same function => isomorphic diagrams, in particular the same node count *)
+Theorem C01_histm_iso :
+  forall s1 s2 : snap,
+  MtOK s1 ->
+  MtOK s2 ->
+  nlevels s1 = nlevels s2 ->
+  forall (r1 r2 : ref) (phi : mfun), DenM s1 r1 phi -> DenM s2 r2 phi -> count_reach s1 (E r1) = count_reach s2 (E r2).
+Proof. exact count_reach_denm. Qed.
+Print Assumptions C01_histm_iso.
+
+Theorem C01_histm_example :
+  hget (s_handles (hm_s acache exm_stA)) 5 = hget (s_handles (hm_s acache exm_stA)) 15 /\
+  hget (s_handles (hm_s acache exm_stA)) 14 = hget (s_handles (hm_s acache exm_stA)) 16 /\
+  (forall e5 e7 : edge,
+  hget (s_handles (hm_s acache exm_stA)) 5 = Some e5 ->
+  hget (s_handles (hm_s acache exm_stA)) 7 = Some e7 ->
+  ~ (forall a : asg, mfun_of (hm_s acache exm_stA) (eref e5) a = mfun_of (hm_s acache exm_stA) (eref e7) a)).
+Proof. exact exm_canonA. Qed.
+Print Assumptions C01_histm_example.
+
+(* the hypotheses of the spec for restrict are satisfiable (cube x0 * (1 - x2) after the reordering) *)
+Theorem C01_histm_example_spec :
+  exists (st' : hstate_m acache) (lits : list (nat * bool)),
+  cube_lits 5 (hm_s acache exm_stA) (mslot_ref acache exm_stA 13) = Some lits /\
+  lits = (0, false) :: (1, true) :: nil /\
+  hstep_m mgtA acache ac_get ac_add nil exm_stA (MHRestrict 31 5 13) = Some st' /\
+  mholds acache st' 31 (fun a : asg => mfA5 (force_asg (hm_s acache exm_stA) lits a)).
+Proof. exact exm_spec_restrict. Qed.
+Print Assumptions C01_histm_example_spec.
+
